@@ -223,6 +223,21 @@ type tMixed struct {
 	Amt   *string           `vgirpc:"amt,decimal"`
 }
 
+// Phase is a named string type that also implements fmt.Stringer with a decorated
+// rendering: the wire carries its content, never its String().
+type Phase string
+
+func (p Phase) String() string { return "Phase(" + string(p) + ")" }
+
+type tNamed struct {
+	E  Phase   `vgirpc:"e,enum"`
+	S  Phase   `vgirpc:"s"`
+	LS Phase   `vgirpc:"ls,large_string"`
+	P  *Phase  `vgirpc:"p"`
+	L  []Phase `vgirpc:"l"`
+	St Status  `vgirpc:"st"`
+}
+
 type tSingle struct {
 	Value int64 `vgirpc:"value"`
 }
@@ -432,6 +447,7 @@ var family = []*famEntry{
 	entry[tNestedColl]("nestedcoll", true),
 	entry[tNested]("nested", false),
 	entry[tMixed]("mixed", false),
+	entry[tNamed]("named", false),
 	entry[tSingle]("single", false),
 }
 
